@@ -3677,6 +3677,10 @@ where
                             // work-in-progress track has offset,
                             // so deduct that offset from this index point's
 
+                            if offset.into() < (*track_offset).into() {
+                                return Err(CuesheetError::IndexPointsOutOfSequence);
+                            }
+
                             cuesheet::Index {
                                 number,
                                 offset: offset - *track_offset,
